@@ -482,6 +482,11 @@ func c05GoShape(p *ir.Program, eff *ir.Effects, g *ssa.Go) (effects []string, pr
 		case ssa.CallInstruction:
 			n := ir.CalleeName(x)
 			if ir.Match("sync.WaitGroup.*", n) {
+				// the goroutine announces only its END: an Add inside it races with the spawner's Wait
+				// (Wait can return before any worker has registered)
+				if n == "sync.WaitGroup.Add" {
+					problems = append(problems, "WaitGroup.Add inside the goroutine at "+p.InstrPos(in)+" (must precede the go statement in the spawner)")
+				}
 				return
 			}
 			for _, w := range eff.Writes(in) {
@@ -515,6 +520,18 @@ func c05GoShape(p *ir.Program, eff *ir.Effects, g *ssa.Go) (effects []string, pr
 	}
 	if len(slotParams) == 0 {
 		problems = append(problems, "no per-goroutine result slot found")
+	}
+	// fork: the spawner registered the goroutine before starting it
+	{
+		added := false
+		for _, a := range ir.Calls(g.Parent(), "sync.WaitGroup.Add") {
+			if ai, ok := a.(*ssa.Call); ok && ir.Precedes(ai, g) {
+				added = true
+			}
+		}
+		if !added {
+			problems = append(problems, "no WaitGroup.Add before the go statement")
+		}
 	}
 	// join: every path from the go statement to a return passes Wait
 	wait := ir.CallMatcher("sync.WaitGroup.Wait")
@@ -945,7 +962,8 @@ func c05SourceOK(p *ir.Program, f *ssa.Function, call *ssa.Call, n string) (bool
 		}
 		return false, "generator source is not an explicit rand.NewSource(seed): " + ir.Render(call.Call.Args[0])
 	case "reflect.Value.MapKeys":
-		if strings.HasPrefix(ir.FuncName(f), "libs/ser.makeMapWriter$") {
+		g := call.Parent() // (a helper split out of the writer closure counts as the closure)
+		if strings.HasPrefix(ir.FuncName(f), "libs/ser.makeMapWriter$") || ir.IsTransparentHelper(g) && ir.FuncName(ir.EnclosingTop(g)) == "libs/ser.makeMapWriter" {
 			return true, "keys are sorted before emission (K7 ser.makeMapWriter/sorted-before-emit)"
 		}
 	}
@@ -1164,9 +1182,76 @@ func c05AccountRoot(c C) {
 	c.MustPass("state.(*stateObject).updateRoot", "pending-writes-applied-first", ir.Entry(ur), isStore, ir.CallMatcher("state.stateObject.updateTrie"), nil, "the pending storage writes are applied to the trie before it is hashed")
 }
 
+// c05CarriedState: values a node keeps from one block to the next must come from the state that was
+// just committed, so that a node that ran the block and a node that restarted after it agree:
+// CommitBlock reads the fee/election coefficients from processResult.tmpState (the post-block state),
+// not from app.storeState, which at that point still is the pre-block state.
+func c05CarriedState(c C) {
+	p, r := c.P, c.R
+	cb := p.Func("app", "LinkApplication.CommitBlock")
+	n := 0
+	for _, call := range ir.Calls(cb, "app.GetCoefficient") {
+		n++
+		r.Check("K5", "app.(*LinkApplication).CommitBlock/coefficients-from-committed-state", p.InstrPos(call.(ssa.Instruction)), strings.HasSuffix(Arg(call, 0), ".tmpState"), "lastCoe is read from the post-block state (the process result of this block): "+short(Arg(call, 0), 60))
+	}
+	c.MustFind("K5", "app.(*LinkApplication).CommitBlock/GetCoefficient", cb, n, "GetCoefficient call")
+	// a sync.Map is keyed by ONE type: Delete/Load with a key of another type (an Address instead of its
+	// string) compiles, matches nothing, and leaves warm caches behind that a restarted node does not have
+	type use struct {
+		pos, op, typ string
+	}
+	byMap := map[string][]use{}
+	for _, f := range p.Funcs {
+		if f.Pkg == nil || f.Blocks == nil || strings.HasSuffix(p.Pos(f.Pos()), "_test.go") {
+			continue
+		}
+		rel := ir.RelPkg(f.Pkg.Pkg)
+		if !(rel == "vm" || strings.HasPrefix(rel, "vm/") || rel == "app" || rel == "state") {
+			continue
+		}
+		ir.Instrs(f, func(in ssa.Instruction) {
+			call, ok := in.(*ssa.Call)
+			if !ok {
+				return
+			}
+			n := ir.CalleeName(call)
+			if !strings.HasPrefix(n, "sync.Map.") || len(call.Call.Args) < 2 {
+				return
+			}
+			op := strings.TrimPrefix(n, "sync.Map.")
+			if op != "Store" && op != "Load" && op != "Delete" && op != "LoadOrStore" {
+				return
+			}
+			key := call.Call.Args[1]
+			if mi, ok := key.(*ssa.MakeInterface); ok {
+				key = mi.X
+			}
+			m := Arg(call, 0)
+			if i := strings.LastIndex(m, "."); i >= 0 {
+				m = m[i+1:] // the field name identifies the map across receivers (eng.AppCache, vm.AppCache)
+			}
+			byMap[m] = append(byMap[m], use{p.InstrPos(in), op, key.Type().String()})
+		})
+	}
+	var names []string
+	for m := range byMap {
+		names = append(names, m)
+	}
+	sort.Strings(names)
+	for _, m := range names {
+		typs := map[string]bool{}
+		for _, u := range byMap[m] {
+			typs[u.typ] = true
+		}
+		r.Check("K5", "sync-map-one-key-type/"+m, byMap[m][0].pos, len(typs) == 1, fmt.Sprintf("all %d Store/Load/Delete calls on %s use one key type: %v", len(byMap[m]), m, byMap[m]))
+	}
+	r.Check("K5", "sync-map-one-key-type/maps", "-", len(names) >= 1, fmt.Sprintf("%d sync.Map fields used on the execution path", len(names)))
+}
+
 func c05WrappedTrie(c C) {
 	p := c.P
 	c05AccountRoot(c)
+	c05CarriedState(c)
 	c05LessStrict(c, "state", "kvHeap.Less", "bytes.Compare(kh[i],kh[j])")
 	for _, name := range []string{"wrappedTrie.TryUpdate", "wrappedTrie.TryDelete"} {
 		fn := p.Func("state", name)
